@@ -96,9 +96,11 @@ impl Cons {
                 self.cdr = val.deep_copy()?;
             }
         } else {
+            // `val` is not formatted into the message: the caller holds a
+            // mutable borrow of this list, which `val` may contain.
             return Err(Error::new(
                 ErrorKind::TypeMismatch,
-                format!("Unable to append: {}", val),
+                "Unable to append to a list that does not end in nil".to_string(),
             ));
         }
         Ok(())
